@@ -196,11 +196,16 @@ type RunOpt struct {
 	Canceller  bool // an environment thread that cancels the request context at any point
 	HangAfterCancel bool
 	Visible    bool
+	PageSize   int // page size of the in-memory store's listings (0 = 100 as in SQL)
 }
 
 // RunCheck executes one check of q on rows under the scheduler with the given choice prefix.
 func (w *World) RunCheck(rows []*relationtuple.RelationTuple, q *relationtuple.RelationTuple, vc vsched.Config, ro RunOpt) CheckOut {
 	w.Store.Reset(rows)
+	w.Store.PageSize = 100
+	if ro.PageSize > 0 {
+		w.Store.PageSize = ro.PageSize
+	}
 	w.Store.Fault = ro.Fault
 	w.Store.Visible = ro.Visible || ro.Canceller
 	w.Cut.reset()
